@@ -1047,6 +1047,14 @@ class Engine:
         return Or(bi, And(Not(ai), self.cmp(ast.LtE(), av, bv)))
 
     def compare_op(self, op, a, b, st, node):
+        if isinstance(op, (ast.Is, ast.IsNot)) and not st.spec_mode:
+            def number_or_string(x):
+                x = x.val if isinstance(x, Opt) else x
+                return is_numish(x) and not is_boolish(x) or (isinstance(x, EnumV) and x.sort == "str")
+            if number_or_string(a) and number_or_string(b):
+                # `is` on integers / floats / strings compares object identity, which CPython only
+                # happens to make coincide with equality for small integers and interned strings
+                self.oblige(st, False, "identity_comparison_of_values", node)
         if isinstance(op, (ast.In, ast.NotIn)):
             r = self.contains(b, a, st, node)
             return Not(r) if isinstance(op, ast.NotIn) else r
